@@ -71,10 +71,10 @@ func (s *Service) apiHandler(w http.ResponseWriter, r *http.Request) {
 		return
 	}
 
-	path := r.URL.RawPath
-	if path == "" {
-		path = r.URL.Path
-	}
+	// The escaped path, as the parts are unescaped one by one further on.
+	// (RawPath is only set when it differs from the default encoding of Path:
+	// falling back on Path would unescape a part such as "a%2525" twice.)
+	path := r.URL.EscapedPath()
 
 	apiPath := s.cfg.APIPath
 
